@@ -147,6 +147,7 @@ fn check(case: &Case, obs: &mut Obs) -> Verdict {
             obs.class_if(ops.first().map_or(false, is_eq), "leading Equal");
             obs.class_if(ops.last().map_or(false, is_eq), "trailing Equal");
             obs.class_if(ops.first().map_or(false, |o| o.old_range().start > 0), "non-zero start offset");
+            obs.class_if(ops.windows(2).any(|w| !is_eq(&w[0]) && !is_eq(&w[1])), "adjacent non-Equal ops (no Replace adapter)");
             Verdict::Pass
         }
         Case::Real { case, n } => {
@@ -256,7 +257,7 @@ fn build_ops(start: (usize, usize), lead: Option<usize>, segs: &[(u8, usize, usi
         n += l;
     }
     for (i, (kind, dl, il, el)) in segs.iter().enumerate() {
-        match kind % 3 {
+        match kind % 5 {
             0 => {
                 ops.push(SOp::Delete(o, *dl, n));
                 o += dl;
@@ -264,6 +265,20 @@ fn build_ops(start: (usize, usize), lead: Option<usize>, segs: &[(u8, usize, usi
             1 => {
                 ops.push(SOp::Insert(o, n, *il));
                 n += il;
+            }
+            // two adjacent non-Equal ops, as a Capture without the Replace adapter (or a caller's
+            // own hook) records them: a valid op list need not alternate
+            3 => {
+                ops.push(SOp::Delete(o, *dl, n));
+                o += dl;
+                ops.push(SOp::Insert(o, n, *il));
+                n += il;
+            }
+            4 => {
+                ops.push(SOp::Insert(o, n, *il));
+                n += il;
+                ops.push(SOp::Delete(o, *dl, n));
+                o += dl;
             }
             _ => {
                 ops.push(SOp::Replace(o, *dl, n, *il));
@@ -316,7 +331,7 @@ fn radius() -> impl Strategy<Value = usize> {
 }
 
 fn strat(tier: Tier) -> BoxedStrategy<Case> {
-    let synth = (radius(), (0usize..4, 0usize..4), proptest::option::of((0u8..10, 1usize..14)), vec((0u8..3, 1usize..4, 1usize..4, 0u8..10, 1usize..14), 0..=6), any::<bool>())
+    let synth = (radius(), (0usize..4, 0usize..4), proptest::option::of((0u8..10, 1usize..14)), vec((prop_oneof![3 => 0u8..3, 1 => 3u8..5], 1usize..4, 1usize..4, 0u8..10, 1usize..14), 0..=6), any::<bool>())
         .prop_map(|(n, start, lead, segs, trail)| {
             let segs: Vec<(u8, usize, usize, usize)> = segs.into_iter().map(|(k, d, i, s, r)| (k, d, i, eq_len(s, r, n))).collect();
             let lead = lead.map(|(s, r)| eq_len(s, r, n));
@@ -372,7 +387,7 @@ fn strat(tier: Tier) -> BoxedStrategy<Case> {
 
 fn enum_lists(tier: Tier, f: &mut dyn FnMut(Case) -> bool) {
     // all alternating lists with up to `maxc` changes, Equal run lengths in 1..=5, change = Delete(1)
-    // | Insert(1) | Replace(1,1) restricted to 2 kinds to keep the space small, x lead/trail x n in 0..=2
+    // | Insert(1) | Delete(1) followed by Insert(1) (two adjacent ops), x lead/trail x n in 0..=2
     let maxc = tier.pick(3usize, 4);
     let lens = [1usize, 2, 3, 4, 5];
     for n in 0..=2usize {
@@ -386,10 +401,10 @@ fn enum_lists(tier: Tier, f: &mut dyn FnMut(Case) -> bool) {
                     let between = nchg.saturating_sub(1);
                     let mut idx = vec![0usize; between];
                     loop {
-                        for kinds in 0..(2usize.pow(nchg as u32)) {
+                        for kinds in 0..(3usize.pow(nchg as u32)) {
                             let segs: Vec<(u8, usize, usize, usize)> = (0..nchg)
                                 .map(|i| {
-                                    let kind = if (kinds >> i) & 1 == 0 { 0u8 } else { 1u8 };
+                                    let kind = [0u8, 1, 3][(kinds / 3usize.pow(i as u32)) % 3];
                                     let el = if i < between { lens[idx[i]] } else if trail > 0 { lens[trail - 1] } else { 1 };
                                     (kind, 1, 1, el)
                                 })
@@ -425,10 +440,10 @@ impl Prop for C12 {
     type Case = Case;
     const ID: &'static str = "C12";
     fn rule() -> String {
-        "cases = Ops(valid alternating op list with arbitrary run lengths biased to {n, 2n, 2n+1, 2n+2, n+1, 1}, optional leading/trailing Equal, non-zero start offsets; n in 0..6 | 10 | 1000) | Real(sequence diff through Capture::into_grouped_ops and group_diff_ops; also diffs with 64-300 ops)  | Text(TextDiff::grouped_ops as a call history on one diff object: grouped_ops(other radius), a unified diff with a third radius, grouped_ops(n) twice, each answer judged on its own; the same texts also as caller-split lines with a trailing empty item through diff_slices); enumeration of all alternating lists with few changes, Equal lengths 1..=5, n in 0..=2. Oracle: flattened non-Equal ops == input non-Equal ops; no all-Equal group; edge context <= n and interior runs <= 2n; equality with a reference grouping written from the statement (modulo zero-length Equal ops, which the pinned code emits for n=0 and the statement neither requires nor forbids). Non-trivial = >= 2 changes and (synthetic) an Equal run of length n, 2n or 2n+1; distinct = distinct serialized case.".into()
+        "cases = Ops(valid op list - alternating, or with a Delete directly followed by an Insert or the reverse as a Capture without the Replace adapter records them - with arbitrary run lengths biased to {n, 2n, 2n+1, 2n+2, n+1, 1}, optional leading/trailing Equal, non-zero start offsets; n in 0..6 | 10 | 1000) | Real(sequence diff through Capture::into_grouped_ops and group_diff_ops; also diffs with 64-300 ops)  | Text(TextDiff::grouped_ops as a call history on one diff object: grouped_ops(other radius), a unified diff with a third radius, grouped_ops(n) twice, each answer judged on its own; the same texts also as caller-split lines with a trailing empty item through diff_slices); enumeration of all lists with few changes (Delete, Insert or Delete+Insert as two ops), Equal lengths 1..=5, n in 0..=2. Oracle: flattened non-Equal ops == input non-Equal ops; no all-Equal group; edge context <= n and interior runs <= 2n; equality with a reference grouping written from the statement (modulo zero-length Equal ops, which the pinned code emits for n=0 and the statement neither requires nor forbids). Non-trivial = >= 2 changes and (synthetic) an Equal run of length n, 2n or 2n+1; distinct = distinct serialized case.".into()
     }
     fn assumptions() -> Vec<String> {
-        vec!["input lists are alternating (the domain the property quantifies over); zero-length Equal ops in the output are tolerated".into()]
+        vec!["input lists never hold two adjacent Equal ops (equal runs are whole, as every capture path of the crate produces them); adjacent non-Equal ops are in the domain; zero-length Equal ops in the output are tolerated".into()]
     }
     fn stages(tier: Tier) -> Vec<Stage<Case>> {
         vec![
